@@ -9,7 +9,8 @@ from harness import lib_queue_backends as lqb
 
 PID = 'C04'
 TITLE = 'Iterator queues deliver every element exactly once and always terminate'
-LEAN_MODULES = ['MlModel.Properties.C04', 'MlModel.Properties.C04Live', 'MlModel.Witness.C04']
+LEAN_MODULES = ['MlModel.Properties.C04', 'MlModel.Properties.C04Live', 'MlModel.Properties.C04Backend', 'MlModel.Witness.C04',
+                'MlModel.Witness.C04Backend']
 TRUSTED = [
     'scheduler shim (harness/sched/shim.py) implements CPython Lock/RLock/Condition(FIFO notify, no spurious wake-up)/'
     'queue.Queue/SimpleQueue semantics; one atomic step = one synchronisation operation, the thread-local code after it '
@@ -48,6 +49,20 @@ def gen_cases(ctx):
       case = lqb.gen_backend_case(rng, k, b, bd, 3 if ctx.quick else 5)
       ctx.count('backend_cases', lqb.arm(case))
       yield case
+  # the async API of AsyncIteratorQueue (async_enqueue_from_iterator, `async for`, anext, async_get, async_get_batch) on a
+  # deterministic event loop, over every buffer its constructor accepts, mixed with sync threads
+  for k in range(8 if ctx.quick else 200):
+    for ab, bds in lqb.ASYNC_BUFFERS.items():
+      for bd in bds:
+        case = lqb.gen_async_case(rng, k, ab, bd, 3 if ctx.quick else 5)
+        ctx.count('backend_cases', lqb.async_arm(case))
+        yield case
+  # the backend CONTRACT: the same operation sequences on the real CPython object, its scheduler shim, the Lean instance
+  for case in lqb.contract_cases(rng, 150 if ctx.quick else 3000):
+    yield dict(case, kind='contract')
+  # the real, un-shimmed backends under OS threads (producers first)
+  for _ in range(1 if ctx.quick else 10):
+    yield from lqb.real_thread_cases(rng)
 
 
 def _cfg(cap, threads, timeout=False):
@@ -87,17 +102,49 @@ def extra(ctx):
   """Model-guided stage: schedules chosen by random walks on the Lean LTS so that together they execute every
   program point reachable in the C04 setting, replayed on the real code and compared step by step."""
   lq.model_guided(ctx, GUIDED_CONFIGS, ctx.seed, unreachable=GUIDED_UNREACHABLE, oracle=oracle)
-  lqb.enforce(ctx)
+  import os
+  from harness.core import REPO
+  for why in lqb.table_check(ctx, os.path.join(REPO, 'ml_metrics', '_src', 'utils', 'iter_utils.py')):
+    ctx.extra_disagreements.append(('backend_table', None, dict(why=why)))
+  lqb.enforce(ctx, extra_required=lqb.async_required() + lqb.CONTRACT_REQUIRED +
+              ['real_threads:' + c[0] for c in lqb.REAL_THREAD_CONFIGS])
 
 
-run_impl = lq.run_impl
-model_requests_obs = lq.model_requests_obs
+def run_impl(case):
+  return lqb.run_impl(case, lq.run_impl)
+
+
+def model_requests_obs(case, obs):
+  k = lqb.kind(case)
+  if k == 'contract':
+    return [lqb.contract_request(case)]
+  if k == 'real_threads':
+    return []
+  if k == 'async':
+    return [lqb.async_model_request(case, obs)]
+  return lq.model_requests_obs(case, obs)
+
+
 model_requests = None
-model_obs = lq.model_obs
+
+
+def model_obs(case, resps):
+  k = lqb.kind(case)
+  if k == 'schedule':
+    return lq.model_obs(case, resps)
+  return dict(kind=k, resp=resps[0] if resps else None)
 
 
 def compare(obs, m):
-  d = lq.compare(obs, m)
+  k = m.get('kind') if isinstance(m, dict) else None
+  if k == 'contract':
+    d = lqb.contract_compare(obs, m['resp'])
+  elif k == 'real_threads':
+    d = None
+  elif k == 'async':
+    d = lqb.async_compare(obs, m['resp'])
+  else:
+    d = lq.compare(obs, m)
   if d is not None:
     lqb.VERDICT['disagreement'] += 1
   if isinstance(obs, dict) and obs.get('oracle_new_failure'):
@@ -113,6 +160,11 @@ def oracle(case, obs):
 
 
 def _oracle(case, obs):
+  k = lqb.kind(case)
+  if k == 'contract':
+    return lqb.contract_oracle(case, obs)
+  if k == 'real_threads':
+    return lqb.real_threads_oracle(case, obs)
   if obs['outcome'] != 'done':
     return (f"{obs['outcome']}: threads blocked forever {obs['blocked']} after {len(obs['choices'])} steps "
             f'(no failure, no stop request)')
@@ -137,12 +189,19 @@ def _oracle(case, obs):
 
 
 def nontrivial(case, obs):
-  lqb.note_run(case, obs)
+  if lqb.kind(case) != 'schedule':
+    lqb.note_kind(case, obs)
+    if lqb.kind(case) != 'async':
+      return lqb.kind(case) == 'real_threads' or any(r[0] == 'raise' for r in obs['real'])
+  else:
+    lqb.note_run(case, obs)
   ch = [c[0] for c in obs['choices']]
   return sum(1 for a, b in zip(ch, ch[1:]) if a != b) >= 10
 
 
 def finding(case, what):
+  if lqb.kind(case) in ('contract', 'real_threads'):
+    return None
   if case['max_enq'] == 0 and len(lq.producers(case)) > 1:
     return 'F22'
   return None
@@ -150,6 +209,12 @@ def finding(case, what):
 
 def neighbours(case, rng):
   import copy
+  if lqb.kind(case) != 'schedule':
+    # the table / contract / async ties have no schedule to re-draw: look for a failing input among the backend cases
+    for k in range(300):
+      b, bd = rng.choice(lqb.sync_arm_list())
+      yield lqb.gen_backend_case(rng, k, b, bd, 4)
+    return
   for k in range(300):
     c = copy.deepcopy(case)
     c['sched'] = dict(kind=rng.choice(['random', 'pct']), seed=rng.randrange(10**9), changes=rng.randrange(1, 6),
